@@ -25,8 +25,20 @@
    then each function body under the hypothesis that the calls it makes agree
    (sections with hypotheses), the loops by induction on the hand model's fuel;
    rel_all_holds ties the knot by induction on f; read_tex and the root on top.
-   The proofs compute with the generated terms: a change of reader.py that
-   changes a generated function breaks the lemma named after that function. *)
+
+   How the bodies are proved.  The generated terms are in the normal form of
+   harness/gen_reader.py (early exits moved into the branches of the `if`s,
+   `not` and `!=` tests turned round, ...), so most re-arrangements of the
+   source give the same term.  The scripts below do not rely on where a
+   statement stands in a block: each splits on what the HAND-WRITTEN function
+   splits on (end of input, category of the token at the cursor, the numbers,
+   the names), lets `vs` run the program under those facts -- every decision
+   made so far is a hypothesis and is rewritten wherever the program asks
+   again, in whatever order it asks -- and at a call of another reader function
+   uses the hypothesis about that call (call_expr, call_cmd, call_arg_group,
+   ...), found by matching the goal.  Frames are only spelled out in the loop
+   invariants.  A change of reader.py that changes what a function computes
+   breaks the lemma named after that function. *)
 From Coq Require Import List NArith ZArith Bool Lia Arith.
 From TexModel Require Import Base Tables Chars Tokenizer Tree Reader ReadDSL ReadGen.
 From TexProofs Require Import TokProofs ReaderLen ReaderTotal.
@@ -363,11 +375,18 @@ Create HintDb bop.
   bop_lt_int bop_gt_int bop_eq_tol bop_ne_mode_math bop_ne_mode_special bop_add_skip
   dict_sig_tok dict_sig_tokval bop_eq_tokval_str dict_math dict_group : bop.
 
+(* facts about the buffer at a cursor, and every decision that was split on
+   (a hypothesis  l = true / false / None / Some _), rewritten wherever the
+   program asks again *)
 Ltac bfacts := repeat match goal with
   | H : nonempty (ttext ?t) = true |- context [nonempty (ttext ?t)] => rewrite H
   | H : has_next ?b = _ |- context [has_next ?b] => rewrite H
   | H : peek_at ?b 0 = _ |- context [peek_at ?b 0] => rewrite H
   | H : tok_at ?b 0 = _ |- context [tok_at ?b 0] => rewrite H
+  | H : ?l = true |- context [?l] => rewrite H
+  | H : ?l = false |- context [?l] => rewrite H
+  | H : ?l = None |- context [?l] => rewrite H
+  | H : ?l = Some _ |- context [?l] => rewrite H
   end.
 Ltac bfacts_in X := repeat match goal with
   | H : has_next ?b = _ |- _ => rewrite H in X
@@ -417,69 +436,6 @@ Definition rel_cnt (all : list token) (i : nat) (r : res ((list expr * Z) * list
     exists i' locs, c = CDone (VInt n) (Some (VArgs args) :: locs) (mkbuf all i')
                     /\ rest = skipn i' all /\ (i <= i')%nat
   end.
-
-Section Command.
-Variable rec : fname -> list value -> buf -> cres.
-Variable lf : nat.
-Variable f : nat.
-Hypothesis Hargs : forall all i nreq nopt strict m, NE all ->
-  rel_args all i (read_args f nreq nopt strict m (skipn i all))
-           (rec F_read_args [VInt nreq; VInt nopt; VNone; tol_val strict; mode_val m] (mkbuf all i)).
-
-Lemma body_read_command all i nreq nopt sk strict m : NE all -> (sk <= 1)%nat ->
-  rel_cmd all i (read_command (S f) nreq nopt sk strict m (skipn i all))
-          (body rec lf F_read_command
-                [VInt nreq; VInt nopt; VInt (Z.of_nat sk); tol_val strict; mode_val m] (mkbuf all i)).
-Proof.
-  intros HNE Hsk. unfold body.
-  assert (Hmain : forall j fr0, (i <= j)%nat ->
-    rel_cmd all i
-      match skipn j all with
-      | [] => Ok ([], [], [])
-      | name :: src =>
-        let '(nreq', nopt') :=
-            if (nreq <? 0)%Z && (nopt <? 0)%Z then signature_of (ttext name) else (nreq, nopt) in
-        bind (read_args f nreq' nopt' strict
-                (if mem_str (ttext name) Tables.special_commands then MSpecial else m) src)
-             (fun '(args, src1) => Ok (ttext name, args, src1))
-      end
-      (finish gen_read_command
-         (exec_block gen_table rec lf
-            (match fd_body gen_read_command with BCons _ b => b | BNil => BNil end)
-            (mkf [Some (VInt nreq); Some (VInt nopt); Some (VInt (Z.of_nat sk)); Some (tol_val strict);
-                  Some (mode_val m); fr0; None; None; None] []) (mkbuf all j)))).
-  { intros j fr0 Hj. vs. bcase all j HNE; vs.
-    - exists j. eexists. eexists. eexists. split; [reflexivity|]. split; [symmetry; exact E | exact Hj].
-    - rewrite mode_val_special.
-      assert (Hcall : forall nreq' nopt' m',
-        rel_args all (S j) (read_args f nreq' nopt' strict m' r)
-          (rec F_read_args [VInt nreq'; VInt nopt'; VNone; tol_val strict; mode_val m'] (mkbuf all (S j)))).
-      { intros. rewrite <- Hs. apply Hargs. exact HNE. }
-      destruct (mem_str (ttext t) Tables.special_commands) eqn:Em; vs.
-      all: destruct (nreq <? 0)%Z; vs; [destruct (nopt <? 0)%Z; vs|].
-      all: unfold signature_of; try (destruct (assoc_str (ttext t) Tables.signatures) as [[sa sb]|]; vs).
-      all: unfold do_call;
-        match goal with
-        | |- context [rec F_read_args [VInt ?a; VInt ?b; VNone; _; mode_val ?mm] _] =>
-          pose proof (Hcall a b mm) as Hc
-        end;
-        match type of Hc with
-        | rel_args _ _ ?h _ => destruct h as [[ar rr]|er]
-        end;
-        [ destruct Hc as (i' & locs & Hc & Hr & Hle); rewrite Hc; vs; rewrite ?Em; vs;
-          exists i'; eexists; eexists; eexists; split; [reflexivity|]; split; [exact Hr | lia]
-        | destruct er; try exact I; cbn in Hc; rewrite Hc; reflexivity ]. }
-  destruct sk as [|[|sk]]; [| |lia].
-  - cbn [read_command Nat.ltb Nat.leb]. rewrite skipn_O.
-    specialize (Hmain i None (le_n i)). vs. vs. exact Hmain.
-  - cbn [read_command]. vs. bcase all i HNE; vs.
-    + reflexivity.
-    + change (skipn 1 (t :: r)) with r.
-      specialize (Hmain (S i) (Some (VInt 0)) (Nat.le_succ_diag_r i)). rewrite Hs in Hmain.
-      vs. exact Hmain.
-Qed.
-End Command.
-
 (* the error branch of a call: the hand side is Err er *)
 Ltac err_case H er :=
   destruct er; try exact I; cbn in H; unfold do_call; rewrite H; vs; try reflexivity.
@@ -525,6 +481,82 @@ Ltac use_cmd H nm a j l Hle :=
   destruct H as (j & l & p & k & H & Hr & Hle); unfold do_call; rewrite H; vs; subst r.
 Ltac done_at j := exists j; eexists; split; [reflexivity|]; split; [try reflexivity; try (symmetry; assumption) | lia].
 
+Section Command.
+Variable rec : fname -> list value -> buf -> cres.
+Variable lf : nat.
+Variable f : nat.
+Hypothesis Hargs : forall all i nreq nopt strict m, NE all ->
+  rel_args all i (read_args f nreq nopt strict m (skipn i all))
+           (rec F_read_args [VInt nreq; VInt nopt; VNone; tol_val strict; mode_val m] (mkbuf all i)).
+
+(* the command proper, with the cursor j on the name token t (r the tokens
+   after it): split on what the hand-written function splits on, run the
+   program, use the hypothesis about read_args at the call *)
+Ltac cmd_main all j t r Hs HNE :=
+  rewrite ?mode_val_special;
+  let Hcall := fresh "Hcall" in
+  assert (Hcall : forall nreq' nopt' m' strict',
+    rel_args all (S j) (read_args f nreq' nopt' strict' m' r)
+      (rec F_read_args [VInt nreq'; VInt nopt'; VNone; tol_val strict'; mode_val m'] (mkbuf all (S j))))
+    by (intros; rewrite <- Hs; apply Hargs; exact HNE);
+  let Em := fresh "Em" in
+  destruct (mem_str (ttext t) Tables.special_commands) eqn:Em; vs;
+  match goal with
+  | |- context [(?a <? 0)%Z && (?b <? 0)%Z] => destruct (a <? 0)%Z; vs; [destruct (b <? 0)%Z; vs|]
+  end;
+  unfold signature_of; try (destruct (assoc_str (ttext t) Tables.signatures) as [[? ?]|]; vs);
+  rewrite ?mode_val_special;
+  unfold do_call;
+  match goal with
+  | |- context [rec F_read_args [VInt ?a; VInt ?b; VNone; tol_val ?st; mode_val ?mm] _] =>
+    let Hc := fresh "Hc" in
+    pose proof (Hcall a b mm st) as Hc;
+    match type of Hc with
+    | rel_args _ _ ?h _ =>
+      let ar := fresh "ar" in let rr := fresh "rr" in let er := fresh "er" in
+      destruct h as [[ar rr]|er];
+      [ let i' := fresh "i'" in let locs := fresh "locs" in let Hr := fresh "Hr" in let Hle := fresh "Hle" in
+        destruct Hc as (i' & locs & Hc & Hr & Hle); rewrite Hc; vs;
+        exists i'; eexists; eexists; eexists; split; [reflexivity|]; split; [exact Hr | lia]
+      | destruct er; try exact I; cbn in Hc; rewrite Hc; reflexivity ]
+    end
+  end.
+
+Lemma body_read_command all i nreq nopt sk strict m : NE all -> (sk <= 1)%nat ->
+  rel_cmd all i (read_command (S f) nreq nopt sk strict m (skipn i all))
+          (body rec lf F_read_command
+                [VInt nreq; VInt nopt; VInt (Z.of_nat sk); tol_val strict; mode_val m] (mkbuf all i)).
+Proof.
+  intros HNE Hsk. unfold body.
+  destruct sk as [|[|sk]]; [| |lia].
+  - (* skip = 0 *)
+    cbn [read_command Nat.ltb Nat.leb]. rewrite skipn_O. vs. bcase all i HNE; vs.
+    + exists i. eexists. eexists. eexists. split; [reflexivity|]. split; [symmetry; exact E | lia].
+    + cmd_main all i t r Hs HNE.
+  - (* skip = 1: one token is passed over first *)
+    cbn [read_command]. vs. bcase all i HNE; vs.
+    + reflexivity.
+    + change (skipn 1 (t :: r)) with r. rewrite <- Hs.
+      bcase all (S i) HNE; vs.
+      * exists (S i). eexists. eexists. eexists. split; [reflexivity|]. split; [symmetry; exact E0 | lia].
+      * cmd_main all (S i) t0 r0 Hs0 HNE.
+Qed.
+End Command.
+
+(* rewrite what is known about the suffixes `skipn j all` in H *)
+Ltac fix_skipn H :=
+  repeat match goal with
+  | E : skipn ?j ?all = _ |- _ =>
+    match type of H with context [skipn j all] => rewrite E in H end
+  end.
+
+(* the hand side is Ok: the program has returned with the cursor where it is *)
+Ltac done_cur :=
+  cbn [rel_args rel_cnt rel_expr rel_list rel_ref rel_cmd];
+  match goal with
+  | |- exists _ _, CDone _ _ {| b_all := _; b_pos := ?j |} = _ /\ _ => done_at j
+  end.
+
 Section Args.
 Variable rec : fname -> list value -> buf -> cres.
 Variable lf : nat.
@@ -536,67 +568,47 @@ Hypothesis Hreq : forall all i args nreq strict m, NE all ->
   rel_cnt all i (read_arg_required f args nreq strict m (skipn i all))
           (rec F_read_arg_required [VArgs args; VInt nreq; tol_val strict; mode_val m] (mkbuf all i)).
 
+(* the program is about to call read_arg_optional / read_arg_required: use the
+   hypothesis at that call *)
+Ltac call_opt HNE a n j l Hle :=
+  unfold do_call;
+  match goal with
+  | |- context [rec F_read_arg_optional [VArgs ?aa; VInt ?nn; tol_val ?st; mode_val ?mm] (mkbuf ?all ?jj)] =>
+    let H := fresh "Hc" in pose proof (Hopt all jj aa nn st mm HNE) as H; fix_skipn H; use_cnt H a n j l Hle
+  end.
+Ltac call_req HNE a n j l Hle :=
+  unfold do_call;
+  match goal with
+  | |- context [rec F_read_arg_required [VArgs ?aa; VInt ?nn; tol_val ?st; mode_val ?mm] (mkbuf ?all ?jj)] =>
+    let H := fresh "Hc" in pose proof (Hreq all jj aa nn st mm HNE) as H; fix_skipn H; use_cnt H a n j l Hle
+  end.
+
+(* the last statement pair: `if src.hasNext() and <group begin>: read_arg_required`,
+   `return args`, with the token at the cursor known *)
+Ltac args_last_tok HNE t :=
+  unfold is_tc; let Eg := fresh "Eg" in
+  destruct (tc_beq (tcat t) TGroupBegin) eqn:Eg; vs;
+  [ let a4 := fresh "a4" in let n4 := fresh "n4" in let i4 := fresh "i4" in
+    let l4 := fresh "l4" in let Hle4 := fresh "Hle4" in
+    call_req HNE a4 n4 i4 l4 Hle4; done_at i4
+  | done_cur ].
+
 Lemma body_read_args all i nreq nopt strict m : NE all ->
   rel_args all i (read_args (S f) nreq nopt strict m (skipn i all))
            (body rec lf F_read_args [VInt nreq; VInt nopt; VNone; tol_val strict; mode_val m]
                  (mkbuf all i)).
 Proof.
   intro HNE. unfold body. cbn [read_args]. vs.
-  assert (Htail : forall i2 a2 n1 n2 l0, (i <= i2)%nat ->
-    rel_args all i
-      (bind (match skipn i2 all with
-             | t :: _ => if is_tc TBracketBegin t
-                         then read_arg_optional f a2 n1 strict m (skipn i2 all)
-                         else Ok (a2, n1, skipn i2 all)
-             | [] => Ok (a2, n1, skipn i2 all)
-             end) (fun '(args3, _, src3) =>
-       bind (match src3 with
-             | t :: _ => if is_tc TGroupBegin t
-                         then read_arg_required f args3 n2 strict m src3
-                         else Ok (args3, n2, src3)
-             | [] => Ok (args3, n2, src3)
-             end) (fun '(args4, _, src4) => Ok (args4, src4))))
-      (finish gen_read_args
-         (exec_block gen_table rec lf
-            (match fd_body gen_read_args with
-             | BCons _ (BCons _ (BCons _ (BCons _ b))) => b | _ => BNil end)
-            (mkf [Some (VInt n2); Some (VInt n1); Some (VArgs a2); Some (tol_val strict);
-                  Some (mode_val m)] l0) (mkbuf all i2)))).
-  { intros i2 a2 n1 n2 l0 Hle. vs.
-    assert (Hlast : forall i3 a3 n1' , (i <= i3)%nat ->
-      rel_args all i
-        (bind (match skipn i3 all with
-               | t :: _ => if is_tc TGroupBegin t
-                           then read_arg_required f a3 n2 strict m (skipn i3 all)
-                           else Ok (a3, n2, skipn i3 all)
-               | [] => Ok (a3, n2, skipn i3 all)
-               end) (fun '(args4, _, src4) => Ok (args4, src4)))
-        (finish gen_read_args
-           (exec_block gen_table rec lf
-              (match fd_body gen_read_args with
-               | BCons _ (BCons _ (BCons _ (BCons _ (BCons _ b)))) => b | _ => BNil end)
-              (mkf [Some (VInt n2); Some (VInt n1'); Some (VArgs a3); Some (tol_val strict);
-                    Some (mode_val m)] l0) (mkbuf all i3)))).
-    { intros i3 a3 n1' Hle3. vs. bcase all i3 HNE; vs.
-      - done_at i3.
-      - unfold is_tc. destruct (tc_beq (tcat t) TGroupBegin); vs.
-        + pose proof (Hreq all i3 a3 n2 strict m HNE) as H4. rewrite E in H4.
-          use_cnt H4 a4 n4 i4 l4 Hle4. done_at i4.
-        + done_at i3. }
-    bcase all i2 HNE; vs.
-    - done_at i2.
-    - unfold is_tc. destruct (tc_beq (tcat t) TBracketBegin); vs.
-      + pose proof (Hopt all i2 a2 n1 strict m HNE) as H3. rewrite E in H3.
-        use_cnt H3 a3 n3 i3 l3 Hle3.
-        specialize (Hlast i3 a3 n3 ltac:(lia)). exact Hlast.
-      + specialize (Hlast i2 a2 n1 Hle).
-        rewrite E in Hlast. vs_in Hlast. exact Hlast. }
-  destruct (nreq =? 0)%Z; vs; [destruct (nopt =? 0)%Z; vs|].
+  destruct (nreq =? 0)%Z eqn:E0; vs; [destruct (nopt =? 0)%Z eqn:E1; vs|].
   { done_at i. }
-  all: pose proof (Hopt all i [] nopt strict m HNE) as H1; use_cnt H1 a1 n1 i1 l1 Hle1.
-  all: pose proof (Hreq all i1 a1 nreq strict m HNE) as H2; use_cnt H2 a2 n2 i2 l2 Hle2.
-  all: specialize (Htail i2 a2 n1 n2 [] ltac:(lia)).
-  all: destruct (skipn i2 all) as [|t2 r2] eqn:E2; exact Htail.
+  all: call_opt HNE a1 n1 i1 l1 Hle1.
+  all: call_req HNE a2 n2 i2 l2 Hle2.
+  all: bcase all i2 HNE; vs; [done_at i2|].
+  all: unfold is_tc; destruct (tc_beq (tcat t) TBracketBegin) eqn:Eb; vs.
+  all: try args_last_tok HNE t.
+  all: call_opt HNE a3 n3 i3 l3 Hle3.
+  all: bcase all i3 HNE; vs; [done_at i3|].
+  all: args_last_tok HNE t0.
 Qed.
 End Args.
 
@@ -651,6 +663,25 @@ Definition opt_parts : exp * block * block :=
 
 Ltac done_cnt j := exists j; eexists; split; [reflexivity|]; split; [try reflexivity; try (symmetry; assumption) | lia].
 
+(* the program is about to call read_arg on the token it has just taken: use
+   the hypothesis Harg at that call (g: the hand fuel), name the group it
+   returns, run on *)
+Ltac call_arg_group Harg g HNE :=
+  unfold do_call;
+  let Ha := fresh "Ha" in
+  match goal with
+  | |- context [?rc F_read_arg [tok_val ?c; tol_val ?st; mode_val ?mm] (mkbuf ?all ?jj)] =>
+    pose proof (Harg g ltac:(lia) all jj c st mm HNE) as Ha; fix_skipn Ha
+  end;
+  let e1 := fresh "e1" in let r1 := fresh "r1" in let er := fresh "er" in let Era := fresh "Era" in
+  match type of Ha with
+  | rel_expr _ _ ?h _ => destruct h as [[e1 r1]|er] eqn:Era; [|err_case Ha er]
+  end;
+  let k1 := fresh "k1" in let b1 := fresh "b1" in let p1 := fresh "p1" in
+  destruct (read_arg_group _ _ _ _ _ _ _ Era) as (k1 & b1 & p1 & ->);
+  let j1 := fresh "j1" in let l1 := fresh "l1" in let Hr1 := fresh "Hr1" in let Hle1 := fresh "Hle1" in
+  destruct Ha as (j1 & l1 & Ha & Hr1 & Hle1); rewrite Ha; vs; subst r1.
+
 Section OptLoop.
 Variable rec : fname -> list value -> buf -> cres.
 Variable lf : nat.
@@ -680,49 +711,21 @@ Proof.
   intros HNE g. induction g as [|g IH]; intros Hg lfw Hlf args nopt i o4 Hi; [exact I|].
   destruct lfw as [|lfw]; [lia|].
   rewrite while_S, Hev. cbn [read_arg_optional]. vs.
-  destruct (nopt =? 0)%Z; vs.
+  destruct (nopt =? 0)%Z eqn:En0; vs.
   { done_cnt i. }
   rewrite Hbd. vs. unfold do_call. rewrite (Hsp all i HNE). unfold spacer_step, read_spacer. vs.
-  assert (Hbr : forall j c r2 o4', (i <= j)%nat -> skipn j all = c :: r2 -> tc_beq (tcat c) TBracketBegin = true ->
-     rel_cnt all i0
-       (bind (read_arg g c strict m r2) (fun '(g0, src3) =>
-              read_arg_optional g (args ++ [g0]) (nopt - 1) strict m src3))
-       (finish gen_read_arg_optional
-          match
-            match
-              exec_block gen_table rec lf
-                (match snd (fst opt_parts) with BCons _ (BCons _ b) => b | _ => BNil end)
-                (mkf [Some (VArgs args); Some (VInt nopt); Some (tol_val strict); Some (mode_val m); o4'] [])
-                (mkbuf all j)
-            with
-            | XNormal fr2 b2 => while_loop ev bd lfw fr2 b2
-            | XContinue fr2 b2 => while_loop ev bd lfw fr2 b2
-            | XBreak fr2 b2 => XNormal fr2 b2
-            | x => x
-            end
-          with
-          | XNormal fr1 b1 => exec_block gen_table rec lf (snd opt_parts) fr1 b1
-          | r => r
-          end)).
-  { intros j c r2 o4' Hj Ej Hc.
-    destruct (buf_view all j HNE) as [E' | t' r' E' Hh' Hp' Hn' Hs' Ht']; [congruence|].
-    rewrite Ej in E'. injection E' as Et Er. rewrite <- Et in *. rewrite <- Er in *. clear Et Er t' r'. vs.
-    pose proof (Harg g ltac:(lia) all (S j) c strict m HNE) as Ha. rewrite Hs' in Ha.
-    destruct (read_arg g c strict m r2) as [[e1 r1]|er] eqn:Era; [|err_case Ha er].
-    destruct (read_arg_group _ _ _ _ _ _ _ Era) as (k1 & b1 & p1 & ->).
-    destruct Ha as (j1 & l1 & Ha & Hr1 & Hle1). unfold do_call. rewrite Ha. vs. subst r1.
-    apply IH; lia. }
   bcase all i HNE; vs.
   - done_cnt i.
   - unfold is_tc. destruct (tc_beq (tcat t) TMergedSpacer) eqn:Esp; vs.
-    + bcase all (S i) HNE; vs.
+    + (* a spacer was taken: the cursor is on the token after it *)
+      bcase all (S i) HNE; vs.
       * destruct r as [|x r']; [|congruence]. done_cnt i.
       * destruct r as [|x r']; [congruence|]. rewrite Hs in E0. injection E0 as -> ->.
         destruct (tc_beq (tcat t0) TBracketBegin) eqn:Eb; vs.
-        -- pose proof (Hbr (S i) t0 r0 (Some (tok_val t)) ltac:(lia) Hs Eb) as Hb. vs_in Hb. exact Hb.
+        -- call_arg_group Harg g HNE. apply IH; lia.
         -- done_cnt i.
     + destruct (tc_beq (tcat t) TBracketBegin) eqn:Eb; vs.
-      * pose proof (Hbr i t r (Some (VStr [])) ltac:(lia) E Eb) as Hb. vs_in Hb. exact Hb.
+      * call_arg_group Harg g HNE. apply IH; lia.
       * done_cnt i.
 Qed.
 End Inner.
@@ -781,6 +784,19 @@ Definition req_parts : exp * block * block :=
   | _ => (XConst VNone, BNil, BNil)
   end.
 
+
+(* the program is about to call read_command: use the hypothesis Hcmd (g: the
+   hand fuel; sk: the number of tokens skipped) *)
+Ltac call_cmd Hcmd g sk HNE nm ca j l Hle :=
+  unfold do_call;
+  let Hc := fresh "Hc" in
+  match goal with
+  | |- context [?rc F_read_command [VInt ?a; VInt ?b; VInt _; tol_val ?st; mode_val ?mm] (mkbuf ?all ?jj)] =>
+    pose proof (Hcmd g ltac:(lia) all jj a b sk st mm HNE ltac:(lia)) as Hc; fix_skipn Hc;
+    cbn [Z.of_nat Pos.of_succ_nat] in Hc
+  end;
+  use_cmd Hc nm ca j l Hle.
+
 Section ReqLoop.
 Variable rec : fname -> list value -> buf -> cres.
 Variable lf : nat.
@@ -820,85 +836,25 @@ Proof.
   bcase all i HNE; vs.
   { done_cnt i. }
   rewrite Hbd. vs. unfold do_call. rewrite (Hsp all i HNE). unfold spacer_step, read_spacer. rewrite E. vs.
-  assert (Hrest : forall j spv o5' o6' o7',
-     (spv = VStr [] /\ j = i) \/ (truthy spv = Some true /\ j = S i) ->
-     rel_cnt all i0
-       (match skipn j all with
-        | c :: src2 =>
-          if is_tc TGroupBegin c then
-            bind (read_arg g c strict m src2) (fun '(g0, src3) =>
-              read_arg_required g (args ++ [g0]) (nreq - 1) strict m src3)
-          else if (0 <? nreq)%Z then
-            if is_tc TEscape c then
-              bind (read_command g 0 0 0 strict m src2) (fun '(name, _, src3) =>
-                read_arg_required g (args ++ [ECmd (strip name) [] [] (tpos c)]) (nreq - 1) strict m src3)
-            else
-              read_arg_required g (args ++ [EGroup GBrace [EStr (ttext c)] (-1)]) (nreq - 1) strict m src2
-          else Ok ((args, nreq), t :: r)
-        | [] => Ok ((args, nreq), t :: r)
-        end)
-       (finish gen_read_arg_required
-          match
-            match
-              exec_block gen_table rec lf
-                (match snd (fst req_parts) with BCons _ b => b | _ => BNil end)
-                (mkf [Some (VArgs args); Some (VInt nreq); Some (tol_val strict); Some (mode_val m);
-                      Some spv; o5'; o6'; o7'] [])
-                (mkbuf all j)
-            with
-            | XNormal fr2 b2 => while_loop ev bd lfw fr2 b2
-            | XContinue fr2 b2 => while_loop ev bd lfw fr2 b2
-            | XBreak fr2 b2 => XNormal fr2 b2
-            | x => x
-            end
-          with
-          | XNormal fr1 b1 => exec_block gen_table rec lf (snd req_parts) fr1 b1
-          | r => r
-          end)).
-  { intros j spv o5' o6' o7' Hcase.
-    assert (Hij : (i <= j)%nat) by (destruct Hcase as [[_ ->]|[_ ->]]; lia).
-    assert (Hback : rel_cnt all i0 (Ok ((args, nreq), t :: r))
-      (finish gen_read_arg_required
-         match
-           match
-             exec_block gen_table rec lf
-               (match snd (fst req_parts) with BCons _ (BCons _ b) => b | _ => BNil end)
-               (mkf [Some (VArgs args); Some (VInt nreq); Some (tol_val strict); Some (mode_val m);
-                     Some spv; o5'; o6'; o7'] []) (mkbuf all j)
-           with
-           | XNormal fr2 b2 => while_loop ev bd lfw fr2 b2
-           | XContinue fr2 b2 => while_loop ev bd lfw fr2 b2
-           | XBreak fr2 b2 => XNormal fr2 b2
-           | x => x
-           end
-         with
-         | XNormal fr1 b1 => exec_block gen_table rec lf (snd req_parts) fr1 b1
-         | r => r
-         end)).
-    { destruct Hcase as [[-> ->]|[Htr ->]]; vs.
-      - done_cnt i.
-      - rewrite Htr. vs. done_cnt i. }
-    bcase all j HNE; vs.
-    - vs_in Hback. exact Hback.
-    - unfold is_tc. destruct (tc_beq (tcat t0) TGroupBegin) eqn:Eg; vs.
-      + pose proof (Harg g ltac:(lia) all (S j) t0 strict m HNE) as Ha. rewrite Hs0 in Ha.
-        destruct (read_arg g t0 strict m r0) as [[e1 r1]|er] eqn:Era; [|err_case Ha er].
-        destruct (read_arg_group _ _ _ _ _ _ _ Era) as (k1 & b1 & p1 & ->).
-        destruct Ha as (j1 & l1 & Ha & Hr1 & Hle1). unfold do_call. rewrite Ha. vs. subst r1.
-        apply IH; lia.
-      + destruct (0 <? nreq)%Z eqn:Epos; vs.
-        * destruct (tc_beq (tcat t0) TEscape) eqn:Ee; vs.
-          -- pose proof (Hcmd g ltac:(lia) all (S j) 0%Z 0%Z 0%nat strict m HNE ltac:(lia)) as Hc.
-             rewrite Hs0 in Hc. cbn [Z.of_nat] in Hc. use_cmd Hc nm ca j1 l1 Hle1.
-             apply IH; lia.
-          -- rewrite <- Hs0. apply IH; lia.
-        * vs_in Hback. exact Hback. }
+  (* the token c at the cursor j decides; r' are the tokens after it *)
   unfold is_tc. destruct (tc_beq (tcat t) TMergedSpacer) eqn:Esp; vs.
-  - assert (Htr : truthy (tok_val t) = Some true) by (cbn [truthy tok_val]; rewrite Ht; reflexivity).
-    pose proof (Hrest (S i) (tok_val t) o5 o6 o7 (or_intror (conj Htr eq_refl))) as Hr.
-    rewrite Hs in Hr. unfold is_tc in Hr. vs_in Hr. exact Hr.
-  - pose proof (Hrest i (VStr []) o5 o6 o7 (or_introl (conj eq_refl eq_refl))) as Hr.
-    rewrite E in Hr. unfold is_tc in Hr. vs_in Hr. exact Hr.
+  - bcase all (S i) HNE; vs.
+    + destruct r as [|x r']; [|congruence]. done_cnt i.
+    + destruct r as [|x r']; [congruence|]. rewrite Hs in E0. injection E0 as -> ->.
+      destruct (tc_beq (tcat t0) TGroupBegin) eqn:Eg; vs.
+      * call_arg_group Harg g HNE. apply IH; lia.
+      * destruct (0 <? nreq)%Z eqn:Epos; vs.
+        -- destruct (tc_beq (tcat t0) TEscape) eqn:Ee; vs.
+           ++ call_cmd Hcmd g 0%nat HNE nm ca j1 l1 Hle1. apply IH; lia.
+           ++ rewrite <- Hs0. apply IH; lia.
+        -- done_cnt i.
+  - destruct (tc_beq (tcat t) TGroupBegin) eqn:Eg; vs.
+    + call_arg_group Harg g HNE. apply IH; lia.
+    + destruct (0 <? nreq)%Z eqn:Epos; vs.
+      * destruct (tc_beq (tcat t) TEscape) eqn:Ee; vs.
+        -- call_cmd Hcmd g 0%nat HNE nm ca j1 l1 Hle1. apply IH; lia.
+        -- rewrite <- Hs. apply IH; lia.
+      * done_cnt i.
 Qed.
 End Inner.
 
@@ -1013,6 +969,44 @@ Proof.
 Qed.
 #[export] Hint Rewrite bop_in_pair : bop.
 
+(* the program is about to call read_expr, the hand side is at
+   `read_expr g skip strict m ..`: use the hypothesis Hexpr at that call and
+   append the expression read to the list in local `acc` *)
+Ltac call_expr Hexpr g HNE e1 j1 l1 Hle1 :=
+  unfold do_call;
+  let He := fresh "He" in
+  match goal with
+  | |- context [read_expr g ?sk ?st ?mm _] =>
+    match goal with
+    | |- context [?rc F_read_expr ?args (mkbuf ?all ?jj)] =>
+      pose proof (Hexpr g ltac:(lia) all jj sk st mm HNE) as He; fix_skipn He;
+      change (rc F_read_expr args (mkbuf all jj))
+        with (rc F_read_expr [skip_val sk; tol_val st; mode_val mm] (mkbuf all jj))
+    end
+  end;
+  use_expr He e1 j1 l1 Hle1;
+  try (change [VExpr e1] with (map VExpr [e1]); rewrite <- map_app).
+
+(* the peek at the command: make_read_peek(read_command)(src, skip=1, ..) *)
+Ltac call_peek_cmd Hcmd g HNE nm ca j1 l1 Hle1 :=
+  unfold do_call;
+  let Hc := fresh "Hc" in
+  match goal with
+  | |- context [read_command g ?a ?b 1 ?st ?mm _] =>
+    match goal with
+    | |- context [?rc F_read_command ?args (mkbuf ?all ?jj)] =>
+      pose proof (Hcmd g ltac:(lia) all jj a b 1%nat st mm HNE ltac:(lia)) as Hc; fix_skipn Hc;
+      change (rc F_read_command args (mkbuf all jj))
+        with (rc F_read_command [VInt a; VInt b; VInt (Z.of_nat 1); tol_val st; mode_val mm] (mkbuf all jj))
+    end
+  end;
+  use_cmd Hc nm ca j1 l1 Hle1;
+  match goal with
+  | Hle : (?i <= j1)%nat |- context [buf_backward (mkbuf ?all j1) (Z.of_nat j1 - Z.of_nat ?i)] =>
+    let vb := fresh "vb" in let Hpb := fresh "Hpb" in
+    destruct (peek_back all i j1 Hle) as (vb & Hpb); rewrite Hpb; vs
+  end.
+
 Definition item_parts : exp * block * block :=
   match fd_body gen_read_item with
   | BCons _ (BCons (SWhile c b) rest) => (c, b, rest)
@@ -1052,45 +1046,15 @@ Proof.
   bcase all i HNE; vs.
   { exists i. eexists. split; [reflexivity|]. split; [symmetry; exact E | exact Hi]. }
   rewrite Hbd. vs.
-  assert (Hstep : forall o2' o3',
-    rel_list all i0
-      (bind (read_expr g [] true MNonMath (t :: r)) (fun '(e, src1) =>
-               read_item_loop g (acc ++ [e]) src1))
-      (finish gen_read_item
-         match
-           match
-             exec_block gen_table rec lf
-               (match snd (fst item_parts) with BCons _ b => b | _ => BNil end)
-               (mkf [Some (tol_val true); Some (VList (map VExpr acc)); o2'; o3'] []) (mkbuf all i)
-           with
-           | XNormal fr2 b2 => while_loop ev bd lfw fr2 b2
-           | XContinue fr2 b2 => while_loop ev bd lfw fr2 b2
-           | XBreak fr2 b2 => XNormal fr2 b2
-           | x => x
-           end
-         with
-         | XNormal fr1 b1 => exec_block gen_table rec lf (snd item_parts) fr1 b1
-         | r => r
-         end)).
-  { intros o2' o3'. vs.
-    pose proof (Hexpr g ltac:(lia) all i [] true MNonMath HNE) as He. rewrite E in He.
-    unfold skip_val in He. cbn [map] in He. change (mode_val MNonMath) with (VStr gen_MODE_NON_MATH) in He.
-    use_expr He e1 j1 l1 Hle1.
-    change [VExpr e1] with (map VExpr [e1]). rewrite <- map_app.
-    apply IH; lia. }
   unfold is_tc. destruct (tc_beq (tcat t) TEscape) eqn:Ee; vs.
-  - pose proof (Hcmd g ltac:(lia) all i (-1)%Z (-1)%Z 1%nat true MNonMath HNE ltac:(lia)) as Hc.
-    rewrite E in Hc. change (mode_val MNonMath) with (VStr gen_MODE_NON_MATH) in Hc.
-    change (Z.of_nat 1) with 1%Z in Hc.
-    use_cmd Hc nm ca j1 l1 Hle1.
-    destruct (peek_back all i j1 Hle1) as (vb & Hpb). rewrite Hpb. vs.
+  - call_peek_cmd Hcmd g HNE nm ca j1 l1 Hle1.
     change [101; 110; 100]%N with s_end. change [105; 116; 101; 109]%N with s_item.
     destruct (str_eqb nm s_end || str_eqb nm s_item); vs.
     + exists i. eexists. split; [reflexivity|]. split; [symmetry; exact E | exact Hi].
-    + pose proof (Hstep (Some (VTok nm p k)) (Some (VArgs ca))) as Hst. vs_in Hst. exact Hst.
+    + call_expr Hexpr g HNE e1 j2 l2 Hle2. apply IH; lia.
   - destruct (tc_beq (tcat t) TGroupEnd) eqn:Ege; vs.
     + exists i. eexists. split; [reflexivity|]. split; [symmetry; exact E | exact Hi].
-    + pose proof (Hstep o2 o3) as Hst. vs_in Hst. exact Hst.
+    + call_expr Hexpr g HNE e1 j2 l2 Hle2. apply IH; lia.
 Qed.
 End Inner.
 
@@ -1144,16 +1108,11 @@ Proof.
   destruct (math_tok_end_some k) as (me & Hme).
   bcase all i HNE; vs.
   - unfold do_call. rewrite Hunc; [reflexivity | exact I | exact I].
-  - rewrite Hme. vs. unfold is_math_end. rewrite Hme. unfold is_tc.
+  - rewrite ?Hme. vs. unfold is_math_end. rewrite ?Hme. unfold is_tc.
     destruct (tc_beq (tcat t) me) eqn:Em; vs.
-    + rewrite Hme. vs. rewrite Em. vs.
-      exists (S i). eexists. split; [reflexivity|]. split; [symmetry; exact Hs | lia].
+    + exists (S i). eexists. split; [reflexivity|]. split; [symmetry; exact Hs | lia].
     + rewrite Hbd. vs.
-      pose proof (Hexpr g ltac:(lia) all i [] strict MMath HNE) as He. rewrite E in He.
-      unfold skip_val in He. cbn [map] in He. change (mode_val MMath) with (VStr gen_MODE_MATH) in He.
-      use_expr He e1 j1 l1 Hle1.
-      change [VExpr e1] with (map VExpr [e1]). rewrite <- map_app.
-      apply IH; lia.
+      call_expr Hexpr g HNE e1 j1 l1 Hle1. apply IH; lia.
 Qed.
 End Inner.
 
@@ -1206,6 +1165,7 @@ Hypothesis Hsp : forall all i, NE all ->
 Hypothesis Hunc : forall e v b, has_end e -> tok_or_none v ->
   rec F_unclosed_env_handler [VExpr e; v] b = CExc EOFError.
 
+
 (* the statements after the loop *)
 Lemma env_finish all name args pos skip (strict : bool) m acc i0 i g o5 o6 o7 eargs : NE all ->
   (g <= F)%nat -> (i0 <= i)%nat ->
@@ -1233,24 +1193,20 @@ Lemma env_finish all name args pos skip (strict : bool) m acc i0 i g o5 o6 o7 ea
                 Some (mode_val m); Some (VList (map VExpr acc)); o5; o6; o7] [])
           (mkbuf all i))).
 Proof.
-  intros HNE Hg Hi Hcase. vs.
-  assert (Herr :
-    rel_ref all i0 (if strict then (Err EOFError : res (expr * list token)) else Ok (ENamed name args acc pos, skipn i all))
-      (finish gen_read_env
-         (exec_block gen_table rec lf
-            (match snd env_parts with BCons _ b => b | _ => BNil end)
-            (mkf [Some (VExpr (ENamed name args [] pos)); Some (skip_val skip); Some (tol_val strict);
-                  Some (mode_val m); Some (VList (map VExpr acc)); o5; o6; Some (VBool true)] [])
-            (mkbuf all i)))).
-  { vs. destruct strict; vs.
-    - unfold do_call. rewrite Hunc; [reflexivity | exact I | apply tok_or_none_peek_range].
-    - exists i. eexists. split; [reflexivity|]. split; [reflexivity | exact Hi]. }
+  intros HNE Hg Hi Hcase.
+  (* the error branch: EOFError when strict, else the environment as it is *)
+  Ltac env_err Hunc i Hi :=
+    match goal with
+    | |- context [if ?strict then Err EOFError else _] =>
+      destruct strict; vs;
+      [ unfold do_call; rewrite Hunc; [reflexivity | exact I | apply tok_or_none_peek_range]
+      | exists i; eexists; split; [reflexivity|]; split; [try reflexivity; try (symmetry; assumption) | exact Hi] ]
+    end.
   destruct Hcase as [E | (Hne & ca & -> & ->)].
-  - rewrite E. bcase all i HNE; [|congruence]. vs.
-    vs_in Herr. rewrite E0 in Herr. exact Herr.
+  - rewrite E. bcase all i HNE; [|congruence]. vs. env_err Hunc i Hi.
   - bcase all i HNE; [congruence|]. vs.
     destruct ca as [|a0 ca]; vs.
-    + vs_in Herr. rewrite E in Herr. exact Herr.
+    + env_err Hunc i Hi.
     + destruct (str_eqb (arg_string a0) name) eqn:Ea; vs.
       * (* not an error: consume \end, spacer, the group *)
         change (Pos.to_nat 2) with 2%nat. unfold do_call. rewrite (Hsp all (i + 2)%nat HNE). vs.
@@ -1265,7 +1221,7 @@ Proof.
            pose proof (Harg g Hg all (S j) t0 strict m HNE) as Ha. rewrite Hs0 in Ha.
            use_expr Ha e1 j1 l1 Hle1.
            exists j1. eexists. split; [reflexivity|]. split; [reflexivity | lia].
-      * vs_in Herr. rewrite E in Herr. exact Herr.
+      * env_err Hunc i Hi.
 Qed.
 
 Section Inner.
@@ -1294,37 +1250,8 @@ Proof.
                            ltac:(lia) Hi (or_introl E)) as Hf.
     rewrite E in Hf. vs_in Hf. exact Hf. }
   rewrite Hbd. vs.
-  assert (Hstep : forall o5' o6',
-    rel_ref all i0
-      (bind (read_expr g skip strict m (t :: r)) (fun '(e, src1) =>
-               read_env_loop g name args pos skip strict m (acc ++ [e]) src1))
-      (finish gen_read_env
-         match
-           match
-             exec_block gen_table rec lf
-               (match snd (fst env_parts) with BCons _ b => b | _ => BNil end)
-               (mkf [Some (VExpr (ENamed name args [] pos)); Some (skip_val skip); Some (tol_val strict);
-                     Some (mode_val m); Some (VList (map VExpr acc)); o5'; o6'; o7] []) (mkbuf all i)
-           with
-           | XNormal fr2 b2 => while_loop ev bd lfw fr2 b2
-           | XContinue fr2 b2 => while_loop ev bd lfw fr2 b2
-           | XBreak fr2 b2 => XNormal fr2 b2
-           | x => x
-           end
-         with
-         | XNormal fr1 b1 => exec_block gen_table rec lf (snd env_parts) fr1 b1
-         | r => r
-         end)).
-  { intros o5' o6'. vs.
-    pose proof (Hexpr g ltac:(lia) all i skip strict m HNE) as He. rewrite E in He.
-    use_expr He e1 j1 l1 Hle1.
-    change [VExpr e1] with (map VExpr [e1]). rewrite <- map_app.
-    apply IH; lia. }
   unfold is_tc. destruct (tc_beq (tcat t) TEscape) eqn:Ee; vs.
-  - pose proof (Hcmd g ltac:(lia) all i (-1)%Z (-1)%Z 1%nat strict m HNE ltac:(lia)) as Hc.
-    rewrite E in Hc. change (Z.of_nat 1) with 1%Z in Hc.
-    use_cmd Hc nm ca j1 l1 Hle1.
-    destruct (peek_back all i j1 Hle1) as (vb & Hpb). rewrite Hpb. vs.
+  - call_peek_cmd Hcmd g HNE nm ca j1 l1 Hle1.
     change [101; 110; 100]%N with s_end.
     destruct (str_eqb nm s_end); vs.
     + assert (Hne : skipn i all <> []) by (rewrite E; discriminate).
@@ -1332,8 +1259,8 @@ Proof.
                              (Some (VArgs ca)) o7 (Some ca) HNE ltac:(lia) Hi
                              (or_intror (conj Hne (ex_intro _ ca (conj eq_refl eq_refl))))) as Hf.
       rewrite E in Hf. vs_in Hf. exact Hf.
-    + pose proof (Hstep (Some (VTok nm p k)) (Some (VArgs ca))) as Hst. vs_in Hst. exact Hst.
-  - pose proof (Hstep o5 o6) as Hst. vs_in Hst. exact Hst.
+    + call_expr Hexpr g HNE e1 j2 l2 Hle2. apply IH; lia.
+  - call_expr Hexpr g HNE e1 j2 l2 Hle2. apply IH; lia.
 Qed.
 End Inner.
 
@@ -1377,22 +1304,28 @@ Hypothesis Harg : forall all i c strict m, NE all ->
   rel_expr all i (read_arg f c strict m (skipn i all))
            (rec F_read_arg [tok_val c; tol_val strict; mode_val m] (mkbuf all i)).
 
+
 Lemma body_read_expr all i skip strict m : NE all ->
   rel_expr all i (read_expr (S f) skip strict m (skipn i all))
            (body rec lf F_read_expr [skip_val skip; tol_val strict; mode_val m] (mkbuf all i)).
 Proof.
   intro HNE. unfold body. cbn [read_expr]. vs. bcase all i HNE; vs.
   { reflexivity. }
-  destruct (math_kind_of_begin (tcat t)) as [k|] eqn:Emk; vs.
-  { rewrite Emk. vs. pose proof (Hmath all (S i) k (tpos t) strict HNE) as Hm. rewrite Hs in Hm.
+  (* the category of the token decides; with the category known every test
+     of the program computes, in whatever order the tests are made *)
+  destruct t as [tx tp tk]. cbn [tcat ttext tpos] in *. vs.
+  destruct (math_kind_of_begin tk) as [k|] eqn:Emk; vs.
+  { pose proof (Hmath all (S i) k tp strict HNE) as Hm. rewrite Hs in Hm.
     use_ref Hm e1 j1 l1 Hle1. exists j1. eexists. split; [reflexivity|]. split; [reflexivity | lia]. }
-  unfold is_tc. destruct (tc_beq (tcat t) TEscape) eqn:Ee; vs.
-  - pose proof (Hcmd all (S i) (-1)%Z (-1)%Z 0%nat strict m HNE ltac:(lia)) as Hc.
+  unfold is_tc.
+  destruct tk; try (vm_compute in Emk; discriminate Emk); vs.
+  (* TEscape: a command *)
+  1: { pose proof (Hcmd all (S i) (-1)%Z (-1)%Z 0%nat strict m HNE ltac:(lia)) as Hc.
     rewrite Hs in Hc. change (Z.of_nat 0) with 0%Z in Hc.
     use_cmd Hc nm ca j1 l1 Hle1.
     change [105; 116; 101; 109]%N with s_item. change [98; 101; 103; 105; 110]%N with s_begin.
     destruct (str_eqb nm s_item) eqn:Eit; vs.
-    + destruct (mode_is_math m); vs; [reflexivity|].
+    + destruct (mode_is_math m) eqn:Emm; vs; [reflexivity|].
       pose proof (Hitem all j1 HNE) as Hi. change (tol_val true) with (VInt 0) in Hi.
       use_list Hi es j2 l2 Hle2.
       exists j2. eexists. split; [reflexivity|]. split; [reflexivity | lia].
@@ -1401,28 +1334,25 @@ Proof.
         -- exists j1. eexists. split; [reflexivity|]. split; [reflexivity | lia].
         -- destruct ca as [|a0 ca']; vs; [reflexivity|].
            destruct (mem_str (strip (arg_string a0)) Tables.math_env_names) eqn:Eme; vs.
-           ++ rewrite mode_val_math.
-              destruct (mem_str (strip (arg_string a0)) skip) eqn:Esk; vs.
-              ** pose proof (Hskip all j1 (strip (arg_string a0)) ca' (tpos t) HNE) as Hk.
-                 use_ref Hk e2 j2 l2 Hle2.
-                 exists j2. eexists. split; [reflexivity|]. split; [reflexivity | lia].
-              ** pose proof (Henv all j1 (strip (arg_string a0)) ca' (tpos t) skip strict MMath HNE) as Hv.
-                 use_ref Hv e2 j2 l2 Hle2.
-                 exists j2. eexists. split; [reflexivity|]. split; [reflexivity | lia].
-           ++ destruct (mem_str (strip (arg_string a0)) skip) eqn:Esk; vs.
-              ** pose proof (Hskip all j1 (strip (arg_string a0)) ca' (tpos t) HNE) as Hk.
-                 use_ref Hk e2 j2 l2 Hle2.
-                 exists j2. eexists. split; [reflexivity|]. split; [reflexivity | lia].
-              ** pose proof (Henv all j1 (strip (arg_string a0)) ca' (tpos t) skip strict m HNE) as Hv.
-                 use_ref Hv e2 j2 l2 Hle2.
-                 exists j2. eexists. split; [reflexivity|]. split; [reflexivity | lia].
-      * exists j1. eexists. split; [reflexivity|]. split; [reflexivity | lia].
-  - destruct (tc_beq (tcat t) TGroupBegin) eqn:Eg; vs.
-    + pose proof (Harg all (S i) t strict MNonMath HNE) as Ha. rewrite Hs in Ha.
-      change (mode_val MNonMath) with (VStr gen_MODE_NON_MATH) in Ha.
-      use_expr Ha e1 j1 l1 Hle1. exists j1. eexists. split; [reflexivity|]. split; [reflexivity | lia].
-    + destruct t as [tx tp tk]. vs.
-      exists (S i). eexists. split; [reflexivity|]. split; [symmetry; exact Hs | lia].
+           all: rewrite ?mode_val_math.
+           all: destruct (mem_str (strip (arg_string a0)) skip) eqn:Esk; vs.
+           all: unfold do_call;
+             match goal with
+             | |- context [rec F_read_skip_env _ _] =>
+               pose proof (Hskip all j1 (strip (arg_string a0)) ca' tp HNE) as Hk;
+               use_ref Hk e2 j2 l2 Hle2
+             | |- context [rec F_read_env [_; _; _; mode_val ?mm] _] =>
+               pose proof (Henv all j1 (strip (arg_string a0)) ca' tp skip strict mm HNE) as Hv;
+               use_ref Hv e2 j2 l2 Hle2
+             end.
+           all: exists j2; eexists; split; [reflexivity|]; split; [reflexivity | lia].
+      * exists j1. eexists. split; [reflexivity|]. split; [reflexivity | lia]. }
+  (* TGroupBegin: a brace group *)
+  1: { pose proof (Harg all (S i) (mkt tx tp TGroupBegin) strict MNonMath HNE) as Ha. rewrite Hs in Ha.
+    change (mode_val MNonMath) with (VStr gen_MODE_NON_MATH) in Ha.
+    use_expr Ha e1 j1 l1 Hle1. exists j1. eexists. split; [reflexivity|]. split; [reflexivity | lia]. }
+  (* everything else is text *)
+  all: exists (S i); eexists; split; [reflexivity|]; split; [symmetry; exact Hs | lia].
 Qed.
 End Expr.
 
@@ -1676,10 +1606,8 @@ Qed.
 Example rel_all_holds_example :
   (2 * 3 + 2 <= 8)%nat /\
   read_expr 3 [] true MNonMath [mkt [97%N] 0 TText] = Ok (EText (mkt [97%N] 0 TText), []) /\
-  call gen_table 8 F_read_expr [skip_val []; tol_val true; mode_val MNonMath]
-       (mkbuf [mkt [97%N] 0 TText] 0)
-  = CDone (VExpr (EText (mkt [97%N] 0 TText)))
-          [Some (skip_val []); Some (tol_val true); Some (mode_val MNonMath);
-           Some (tok_val (mkt [97%N] 0 TText)); None; None; None; None]
-          (mkbuf [mkt [97%N] 0 TText] 1).
-Proof. split; [lia|]. split; vm_compute; reflexivity. Qed.
+  exists locs,
+    call gen_table 8 F_read_expr [skip_val []; tol_val true; mode_val MNonMath]
+         (mkbuf [mkt [97%N] 0 TText] 0)
+    = CDone (VExpr (EText (mkt [97%N] 0 TText))) locs (mkbuf [mkt [97%N] 0 TText] 1).
+Proof. split; [lia|]. split; [vm_compute; reflexivity|]. eexists. vm_compute. reflexivity. Qed.
